@@ -384,6 +384,29 @@ def _worklist(run, P):
             for i_ in ast.walk(outer)
             if not any(isinstance(y, ast.Call) and isinstance(y.func, ast.Attribute)
                        and y.func.attr == "pop" for y in ast.walk(i_)))]
+        if filt or guarded_fill:
+            # left out for good (a membership test in a container that only grows) is
+            # decided; a predicate that can let a statement in again is not
+            tests_ = [i_ for c in filt for g_ in c.generators for i_ in g_.ifs]
+            definite = bool(tests_) and not guarded_fill
+            for t_ in tests_:
+                cmp_ = t_.operand if isinstance(t_, ast.UnaryOp) else t_
+                if not (isinstance(cmp_, ast.Compare) and len(cmp_.ops) == 1
+                        and isinstance(cmp_.ops[0], (ast.In, ast.NotIn))
+                        and isinstance(cmp_.comparators[0], ast.Name)):
+                    definite = False
+                    continue
+                box = cmp_.comparators[0].id
+                shrinks = any(isinstance(x, ast.Call) and isinstance(x.func, ast.Attribute)
+                              and x.func.attr in ("discard", "remove", "pop", "clear", "difference_update")
+                              and dotted(x.func.value) == box for x in ast.walk(F.node)) or any(
+                    isinstance(x, ast.Delete) and any(dotted(getattr(t2, "value", t2)) == box
+                                                      for t2 in x.targets) for x in ast.walk(F.node))
+                if shrinks:
+                    definite = False
+            if not definite:
+                raise AnalysisError("SymbolKindFinder.__call__: the work list of a sweep is filtered "
+                                    "by a predicate this clause does not read; not decided")
         run.ob("C14.fixpoint", F, filt[0] if filt else outer, not filt and not guarded_fill,
                construct="every statement of every phase enters the work list of every sweep"
                          + (f" (filtered: {norm(filt[0], 60)})" if filt else ""),
@@ -482,6 +505,15 @@ def _mapper(run, P):
                     continue
                 if head in g.reachable([r], avoid=uni_nodes, follow_exc=False):
                     skipped.append(r)
+            if skipped:
+                # unify() skipped for a kind that equals the one accumulated so far is no
+                # bypass (the join of a kind with itself is that kind)
+                from .util import path_conditions as _pc
+                eq_guarded = all(any(re.fullmatch(r"\w+ (!=|==) \w+", t_) and (
+                    (pol and "!=" in t_) or (not pol and "==" in t_))
+                    for t_, pol in _pc(m.node, u_.ast)) for u_ in uni_nodes)
+                if eq_guarded:
+                    skipped = []
             ok = not leaves and bool(recs) and not skipped
             what = []
             if leaves:
@@ -507,6 +539,16 @@ def _mapper(run, P):
             exc = ast.unparse(rz.exc)
             if "UnableToInferKind" in exc:
                 continue
+            if isinstance(rz.exc, ast.Name):
+                # a kept exception object: a deferral if it was only ever caught as one
+                caught = {h.name for h in ast.walk(m.node) if isinstance(h, ast.ExceptHandler)
+                          and h.name and h.type is not None
+                          and "UnableToInferKind" in ast.unparse(h.type)}
+                vals = [s_.value for s_ in ast.walk(m.node) if isinstance(s_, ast.Assign)
+                        and any(isinstance(t_, ast.Name) and t_.id == rz.exc.id for t_ in s_.targets)]
+                if vals and all((isinstance(v_, ast.Name) and v_.id in caught)
+                                or (isinstance(v_, ast.Constant) and v_.value is None) for v_ in vals):
+                    continue
             pc = path_conditions(m.node, rz)
             about_kind = [t for t, v in pc if any(
                 (isinstance(x, ast.Name) and x.id in kinds)
